@@ -203,7 +203,7 @@ def keyLen : Profile → Nat
   | _ => srtpKeyLenDefault
 
 def saltLen : Profile → Nat
-  | .gcm => srtpSaltLenGcm
+  | .gcm => c10SrtpSaltLenGcm
   | _ => srtpSaltLenDefault
 
 def totalLen (p : Profile) : Nat := 2 * (keyLen p + saltLen p)
